@@ -206,11 +206,17 @@ func (c *compiler) compileFile(astFile *ast.File, pkg *pkg.Package) *file {
 	if c.requireBuildTag && !fileHasCffTag(astFile) {
 		msgfmt := "files that use %v must be tagged with the 'cff' constraint: " +
 			"fix by adding '//go:build cff' to the top of this file"
+		// Flows and Parallels hold nil for directives that failed to
+		// compile; those already have diagnostics of their own.
 		for _, f := range file.Flows {
-			c.errf(c.nodePosition(f.Node), msgfmt, "cff.Flow")
+			if f != nil {
+				c.errf(c.nodePosition(f.Node), msgfmt, "cff.Flow")
+			}
 		}
 		for _, p := range file.Parallels {
-			c.errf(c.nodePosition(p.Node), msgfmt, "cff.Parallel")
+			if p != nil {
+				c.errf(c.nodePosition(p.Node), msgfmt, "cff.Parallel")
+			}
 		}
 	}
 
